@@ -39,8 +39,8 @@ TEXT["C03"] = dict(
 )
 TEXT["C16"] = dict(
     technique="runtime monitoring: operation-history checker against an executable sequential model (Vec), exhaustive small scope + long random histories, unique element ids",
-    level="Exhaustive for every history of length <= 3 (4 thorough) over 79 operation instances of the whole public API from two start states; random histories of 300 ops beyond. After every operation return value, full contents and printed form are compared with the model.",
-    note="`swap(i,j)` (raw vector indices, not in the statement) is left out. last_eq is modelled as documented (shallow for Items).",
+    level="Exhaustive for every history of length <= 3 (4 thorough) over 91 operation instances of the whole public API from two start states; random histories of 300 ops beyond. After every operation return value, full contents and printed form are compared with the model.",
+    note="`swap(i,j)` (raw vector indices, not in the statement's list) is exercised with in-range indices only. last_eq is modelled as documented (shallow for Items).",
 )
 TEXT["C17"] = dict(
     technique="runtime monitoring: history checker against a bounded-sequence model + representation-invariant hook (verif_cursors) + differential step monitor for INPUT/OUTPUT instructions",
